@@ -30,7 +30,7 @@ Proof.
   assert (N91 : eqc (peek rest') 91 || eqc (peek rest') 60 = false).
   { pose proof (by_enum (fun c => negb (stop3 c) || negb (eqc c 91 || eqc c 60)) eq_refl (peek rest')) as F. cbv beta in F. rewrite St in F. cbn [negb orb] in F. now apply negb_true_iff in F. }
   apply orb_false_iff in N91 as [N91 N60]. rewrite N91, N60. cbn [orb].
-  pose proof St as St'. unfold stop3 in St'. rewrite St'. reflexivity.
+  pose proof St as St'. unfold stop3 in St'. rewrite St'. cbn [p_name fresh]. rewrite guard_same. reflexivity.
 Qed.
 
 Record alt_ok2 (t : str) (p : possi) : Prop := {
